@@ -440,7 +440,9 @@ class C14(flow.Spec):
         'firmware memory is the set of present pages of the image; a read outside is the explicit outcome Stray in the model and a recovered fault in the harness',
         'the monitor takes the ACPI lengths (20 / 36 bytes) and "FACP" as given by the ACPI specification; when an extended root pointer has a valid 36-byte but an invalid 20-byte checksum the text does not decide acceptance (agreement only)',
         'root table with Length < sizeof(SDTHeader) and zero sum (the payload length wraps to ~4G entries) is modelled (wrap) but not generated: Go would try to allocate the entry slice',
-        'which DSDT pointer wins when the 32- and 64-bit pointers of a FADT name different tables is not fixed by the text: agreement only; the model follows the code (root table revision >= 2 => Ext.Dsdt at the Go struct offset)',
+        'the DSDT a FADT points to: the monitor demands registration whenever the FADT names one table unambiguously (both pointers equal, only one present, or the packed ACPI layout with DSDT = X_DSDT); '
+        'the code selects the pointer by the root table\'s header revision and reads Ext.Dsdt at the Go struct offset (152, ACPI X_DSDT is at 140), which misses the DSDT for three input classes recorded as known findings '
+        '(c14:dsdt:acpi-layout-fadt:rootrev-ge2, c14:dsdt:only32-fadt:rootrev-ge2, c14:dsdt:only64-fadt:rootrev-lt2); FADTs whose two pointers name different tables are agreement only; the model and the theorems (fadt_dsdt) follow the code',
         'kfmt renders the log lines (C15); the harness parses them back into (signature, address, length) events; printTableInfo lines are compared sorted (Go map order)',
     ]
     partial = []
